@@ -221,6 +221,83 @@ fn c09_undeclared(c: &SemCase, st: &mut Stats) -> CheckResult {
     Ok(Outcome::Ok)
 }
 
+/// Wide ADFs (65..100 statements) with one or two conditions that are long chains over all statements, joined by every
+/// connective: diagrams with more variables than a machine word has bits, up to 2^99 paths, children of very different depth.
+#[derive(Clone, Debug, Serialize, Deserialize, Hash)]
+pub struct ChainCase {
+    pub n: u8,
+    /// per position: connective (0 and, 1 or, 2 xor, 3 iff, 4 imp, 5 imp reversed), polarity
+    pub spec: Vec<(u8, bool)>,
+    /// which connectives may occur (bit mask over the six): pure xor / pure and chains are the extreme shapes
+    pub allowed: u8,
+    pub second: bool,
+}
+
+fn chain_case() -> BoxedStrategy<ChainCase> {
+    (65u8..=100, proptest::collection::vec((0u8..6, any::<bool>()), 100), prop_oneof![Just(0b000100u8), Just(0b001000u8), Just(0b000001u8), Just(0b001100u8), 1u8..64, 1u8..64], any::<bool>())
+        .prop_map(|(n, spec, allowed, second)| ChainCase { n, spec, allowed, second })
+        .boxed()
+}
+
+fn c09_chains(c: &ChainCase, st: &mut Stats) -> CheckResult {
+    let n = c.n as usize;
+    let allowed: Vec<u8> = (0u8..6).filter(|b| c.allowed >> b & 1 == 1).collect();
+    let chain = |offset: usize| -> F {
+        let mut acc: Option<F> = None;
+        for i in (0..n).rev() {
+            let (con, pol) = c.spec[(i + offset) % c.spec.len()];
+            let lit = if pol { F::Atom(i) } else { F::not(F::Atom(i)) };
+            acc = Some(match acc {
+                None => lit,
+                Some(rest) => match allowed[con as usize % allowed.len()] {
+                    0 => F::and(lit, rest),
+                    1 => F::or(lit, rest),
+                    2 => F::xor(lit, rest),
+                    3 => F::iff(lit, rest),
+                    4 => F::imp(lit, rest),
+                    _ => F::imp(rest, lit),
+                },
+            });
+        }
+        acc.unwrap()
+    };
+    let mut acs: Vec<F> = (0..n).map(|i| if i % 3 == 0 { F::Top } else if i % 3 == 1 { F::not(F::Atom(i - 1)) } else { F::Atom(i) }).collect();
+    acs[0] = chain(0);
+    if c.second {
+        acs[n / 2] = chain(7);
+    }
+    let adf = gen::AdfCase::simple(acs);
+    let text = adf.text();
+    let res = sut::with_parser_opt(&text, sut::Sort::None, false, |p| -> Result<(u64, usize), String> {
+        let perm: Vec<usize> = (0..n).collect();
+        let mut obligations = 0;
+        let mut nodes = 0;
+        for (nm, b) in [("from_parser", Backend::Native), ("hybrid_step_opt(false)", Backend::HybridNoPre), ("from_biodivine", Backend::FromBio)] {
+            let a = build_native_like(p, b);
+            if a.ac.len() != n {
+                return Err(format!("{nm}: {} acceptance handles for {n} statements", a.ac.len()));
+            }
+            for li in [0, n / 2, 1, 2, n - 1] {
+                obligations += validate_statement(&a, li, &adf.acs[li], &perm, &perm, nm)?;
+            }
+            nodes = nodes.max(a.bdd.nodes.len());
+        }
+        Ok((obligations, nodes))
+    });
+    let (obl, nodes) = match res {
+        Err(e) => return Err(format!("well-formed input rejected: {e}")),
+        Ok(Err(e)) => return Err(e),
+        Ok(Ok(x)) => x,
+    };
+    st.count("programs", 1);
+    st.count("obligations_checked", obl);
+    st.label(if allowed.iter().any(|a| *a == 2 || *a == 3) { "chain:with-xor/iff (exponentially many paths)" } else { "chain:and/or/imp only" });
+    if nodes >= 100 {
+        st.nontrivial(stable_hash(c), || json!({"statements": n, "nodes": nodes, "connectives": allowed}));
+    }
+    Ok(Outcome::Ok)
+}
+
 pub fn c09(tier: Tier) -> PropSpec {
     PropSpec {
         id: "C09",
@@ -266,6 +343,7 @@ pub fn c09(tier: Tier) -> PropSpec {
                 c09_check,
             ),
             Part::new("undeclared", tier.pick(4000, 40000), || crate::props::sem::sem_case(2, 6), c09_undeclared),
+            Part::with_shrink("chains", tier.pick(800, 8000), 200, chain_case, c09_chains),
         ],
     }
 }
